@@ -140,12 +140,29 @@ Definition group_new (qs : quant) (secs : list sector) : list (Z * list sector) 
   map (fun k => (k, filter (fun s => quant_up qs (s_exp s) =? k) secs))
       (sortZ (map (fun s => quant_up qs (s_exp s)) secs)).
 
+(* monadic folds: [foldM] visits every element (for_each); [iterM] stops when the callback
+   answers false (for_each_while / iter_while_mut) *)
+Fixpoint foldM {A B} (f : A -> B -> res A) (l : list B) (a : A) : res A :=
+  match l with
+  | [] => Ok a
+  | x :: r => match f a x with Ok a' => foldM f r a' | Err c => Err c end
+  end.
+Fixpoint iterM {A B} (f : A -> B -> res (A * bool)) (l : list B) (a : A) : res A :=
+  match l with
+  | [] => Ok a
+  | x :: r => match f a x with
+              | Ok (a', go) => if go then iterM f r a' else Ok a'
+              | Err c => Err c
+              end
+  end.
+
+Definition add_group (qs : quant) (q : queue) (kg : Z * list sector) : res queue :=
+  q_add qs q (fst kg) (nums_of (snd kg)) ∅ (sum_pow (snd kg)) pp0 (sum_pledge (snd kg))
+        (sum_fee (snd kg)).
+
 Definition add_active_sectors (qs : quant) (q : queue) (secs : list sector)
   : res (queue * gset N * pp * Z * Z) :=
-  LET q' <- fold_left (fun (rq : res queue) '(k, grp) =>
-              LET q <- rq IN
-              q_add qs q k (nums_of grp) ∅ (sum_pow grp) pp0 (sum_pledge grp) (sum_fee grp))
-            (group_new qs secs) (Ok q) IN
+  LET q' <- foldM (add_group qs) (group_new qs secs) q IN
   Ok (q', nums_of secs, sum_pow secs, sum_pledge secs, sum_fee secs).
 
 (* find_sectors_by_expiration *)
@@ -156,12 +173,14 @@ Definition by_number (secs : list sector) : gmap N sector :=
   fold_left (fun m s => <[s_num s := s]> m) secs ∅.
 Definition lookup_all (m : gmap N sector) (l : list N) : list sector := omap (fun n => m !! n) l.
 
-Definition group_es (m : gmap N sector) (remaining : gset N) (es : expset) (k : Z)
-  : group * gset N :=
+(* group_expiration_set: the wanted sectors found on time in [es] *)
+Definition mk_group (m : gmap N sector) (remaining : gset N) (es : expset) (k : Z) : group :=
   let hit := on_time es ∩ remaining in
   let l := lookup_all m (sorted hit) in
-  ({| g_epoch := k; g_secs := hit; g_pow := sum_pow l; g_pledge := sum_pledge l;
-      g_fee := sum_fee l; g_es := es |}, remaining ∖ hit).
+  {| g_epoch := k; g_secs := hit; g_pow := sum_pow l; g_pledge := sum_pledge l;
+     g_fee := sum_fee l; g_es := es |}.
+Definition push_group (gs : list group) (g : group) : list group :=
+  if set_empty (g_secs g) then gs else gs ++ [g].
 
 Fixpoint ins_group (g : group) (l : list group) : list group :=
   match l with
@@ -172,46 +191,46 @@ Definition sort_groups (l : list group) : list group := fold_right ins_group [] 
 
 Definition zmem (k : Z) (l : list Z) : bool := existsb (Z.eqb k) l.
 
+Definition find_pass1 (q : queue) (m : gmap N sector) (acc : list group * gset N) (k : Z)
+  : res (list group * gset N) :=
+  LET es <- q_may_get q k IN
+  let g := mk_group m (snd acc) es k in
+  Ok (push_group (fst acc) g, snd acc ∖ g_secs g).
+
+Definition find_pass2 (q : queue) (m : gmap N sector) (declared : list Z)
+    (acc : list group * gset N) (k : Z) : res (list group * gset N * bool) :=
+  if zmem k declared then Ok (acc, true) else
+  match q !! k with
+  | None => Ok (acc, true)
+  | Some es =>
+      if negb (disjoint_b (early es) (snd acc)) then Err E_STATE else
+      let g := mk_group m (snd acc) es k in
+      let rem' := snd acc ∖ g_secs g in
+      Ok ((push_group (fst acc) g, rem'), negb (set_empty rem'))
+  end.
+
 Definition find_sectors_by_expiration (qs : quant) (q : queue) (secs : list sector)
   : res (list group) :=
   let declared := sortZ (map (fun s => quant_up qs (s_exp s)) secs) in
   let m := by_number secs in
-  let all := nums_of secs in
   (* pass 1: the declared (quantised) expirations *)
-  LET '(groups, remaining) <-
-    fold_left (fun (acc : res (list group * gset N)) k =>
-                 LET '(gs, rem) <- acc IN
-                 LET es <- q_may_get q k IN
-                 let '(g, rem') := group_es m rem es k in
-                 Ok (if set_empty (g_secs g) then gs else gs ++ [g], rem'))
-              declared (Ok ([], all)) IN
+  LET acc1 <- foldM (find_pass1 q m) declared ([], nums_of secs) IN
   (* pass 2: the rest of the queue in epoch order, while sectors remain *)
-  LET '(groups, remaining, _) <-
-    (if set_empty remaining then Ok (groups, remaining, false) else
-     fold_left (fun (acc : res (list group * gset N * bool)) k =>
-                  LET '(gs, rem, go) <- acc IN
-                  if negb go then Ok (gs, rem, go) else
-                  if zmem k declared then Ok (gs, rem, true) else
-                  match q !! k with
-                  | None => Ok (gs, rem, go)
-                  | Some es =>
-                      if negb (disjoint_b (early es) rem) then Err E_STATE else
-                      let '(g, rem') := group_es m rem es k in
-                      Ok (if set_empty (g_secs g) then gs else gs ++ [g], rem',
-                          negb (set_empty rem'))
-                  end)
-               (qkeys q) (Ok (groups, remaining, true))) IN
-  if negb (set_empty remaining) then Err E_STATE else
-  Ok (sort_groups groups).
+  LET acc2 <- (if set_empty (snd acc1) then Ok acc1
+               else iterM (find_pass2 q m declared) (qkeys q) acc1) IN
+  if negb (set_empty (snd acc2)) then Err E_STATE else
+  Ok (sort_groups (fst acc2)).
+
+Definition remove_group (qs : quant) (acc : queue * gset N * pp * Z * Z) (g : group)
+  : res (queue * gset N * pp * Z * Z) :=
+  let '(q, ns, pw, pl, fe) := acc in
+  LET q' <- q_remove qs q (g_epoch g) (g_secs g) ∅ (g_pow g) pp0 (g_pledge g) (g_fee g) IN
+  Ok (q', ns ∪ g_secs g, pp_add pw (g_pow g), pl + g_pledge g, fe + g_fee g).
 
 Definition remove_active_sectors (qs : quant) (q : queue) (secs : list sector)
   : res (queue * gset N * pp * Z * Z) :=
   LET groups <- find_sectors_by_expiration qs q secs IN
-  fold_left (fun (acc : res (queue * gset N * pp * Z * Z)) g =>
-               LET '(q, ns, pw, pl, fe) <- acc IN
-               LET q' <- q_remove qs q (g_epoch g) (g_secs g) ∅ (g_pow g) pp0 (g_pledge g) (g_fee g) IN
-               Ok (q', ns ∪ g_secs g, pp_add pw (g_pow g), pl + g_pledge g, fe + g_fee g))
-            groups (Ok (q, ∅, pp0, 0, 0)).
+  foldM (remove_group qs) groups (q, ∅, pp0, 0, 0).
 
 Definition q_reschedule_expirations (qs : quant) (q : queue) (new_exp : Z) (secs : list sector)
   : res queue :=
@@ -222,62 +241,71 @@ Definition q_reschedule_expirations (qs : quant) (q : queue) (new_exp : Z) (secs
     q_add qs q1 new_exp ns ∅ pw pp0 pl fe
   end.
 
+(* the group's entry after its sectors turned faulty in place / after they left it *)
+Definition es_faulty_in_place (es : expset) (g : group) : expset :=
+  {| on_time := on_time es; early := early es; on_time_pledge := on_time_pledge es;
+     active_power := pp_sub (active_power es) (g_pow g);
+     faulty_power := pp_add (faulty_power es) (g_pow g);
+     fee_deduction := fee_deduction es |}.
+Definition es_moved_out (es : expset) (g : group) : expset :=
+  {| on_time := on_time es ∖ g_secs g; early := early es;
+     on_time_pledge := on_time_pledge es - g_pledge g;
+     active_power := pp_sub (active_power es) (g_pow g);
+     faulty_power := faulty_power es;
+     fee_deduction := fee_deduction es - g_fee g |}.
+
+Definition fault_group (nq : Z) (acc : queue * gset N * pp * pp * Z) (g : group)
+  : res (queue * gset N * pp * pp * Z) :=
+  let '(q, total, expiring, resched, rfee) := acc in
+  if g_epoch g <=? nq then
+    (* stays on time at its own (earlier) epoch; power becomes faulty *)
+    let es' := es_faulty_in_place (g_es g) g in
+    LET q' <- q_must_update_or_delete q (g_epoch g) es' IN
+    if es_validate es' then Ok (q', total, pp_add expiring (g_pow g), resched, rfee)
+    else Err E_STATE
+  else
+    let es' := es_moved_out (g_es g) g in
+    LET q' <- q_must_update_or_delete q (g_epoch g) es' IN
+    if es_validate es' then
+      Ok (q', total ∪ g_secs g, expiring, pp_add resched (g_pow g), rfee + g_fee g)
+    else Err E_STATE.
+
 Definition reschedule_as_faults (qs : quant) (q : queue) (new_exp : Z) (secs : list sector)
   : res (queue * pp) :=
   LET groups <- find_sectors_by_expiration qs q secs IN
   let nq := quant_up qs new_exp in
   LET '(q1, total, expiring, resched, resched_fee) <-
-    fold_left (fun (acc : res (queue * gset N * pp * pp * Z)) g =>
-      LET '(q, total, expiring, resched, rfee) <- acc IN
-      let es := g_es g in
-      if g_epoch g <=? nq then
-        (* stays on time at its own (earlier) epoch; power becomes faulty *)
-        let es' := {| on_time := on_time es; early := early es; on_time_pledge := on_time_pledge es;
-                      active_power := pp_sub (active_power es) (g_pow g);
-                      faulty_power := pp_add (faulty_power es) (g_pow g);
-                      fee_deduction := fee_deduction es |} in
-        LET q' <- q_must_update_or_delete q (g_epoch g) es' IN
-        if es_validate es' then Ok (q', total, pp_add expiring (g_pow g), resched, rfee)
-        else Err E_STATE
-      else
-        let es' := {| on_time := on_time es ∖ g_secs g; early := early es;
-                      on_time_pledge := on_time_pledge es - g_pledge g;
-                      active_power := pp_sub (active_power es) (g_pow g);
-                      faulty_power := faulty_power es;
-                      fee_deduction := fee_deduction es - g_fee g |} in
-        LET q' <- q_must_update_or_delete q (g_epoch g) es' IN
-        if es_validate es' then
-          Ok (q', total ∪ g_secs g, expiring, pp_add resched (g_pow g), rfee + g_fee g)
-        else Err E_STATE)
-      groups (Ok (q, ∅, pp0, pp0, 0)) IN
+    foldM (fault_group nq) groups (q, ∅, pp0, pp0, 0) IN
   LET q2 <- (if set_empty total then Ok q1
              else q_add qs q1 new_exp ∅ total pp0 resched 0 resched_fee) IN
   Ok (q2, pp_add resched expiring).
 
+(* reschedule_all_as_faults.  The code collects the mutated sets and writes them back after the
+   pass; writing each at once gives the same queue and the same (only) error class. *)
+Definition es_all_faulty (es : expset) : expset :=
+  {| on_time := on_time es; early := early es; on_time_pledge := on_time_pledge es;
+     active_power := pp0; faulty_power := pp_add (faulty_power es) (active_power es);
+     fee_deduction := fee_deduction es |}.
+
+Definition fault_all_step (qfe : Z) (q0 : queue) (acc : queue * list Z * gset N * pp * Z) (k : Z)
+  : res (queue * list Z * gset N * pp * Z) :=
+  let '(q, repochs, rsecs, rpow, rfee) := acc in
+  match q0 !! k with
+  | None => Ok acc
+  | Some es =>
+    if k <=? qfe then
+      let es' := es_all_faulty es in
+      if es_validate es' then Ok (<[k := es']> q, repochs, rsecs, rpow, rfee) else Err E_STATE
+    else
+      if negb (set_empty (early es)) then Err E_STATE else
+      Ok (q, repochs ++ [k], rsecs ∪ on_time es,
+          pp_add (pp_add rpow (active_power es)) (faulty_power es), rfee + fee_deduction es)
+  end.
+
 Definition reschedule_all_as_faults (qs : quant) (q : queue) (fault_exp : Z) : res queue :=
   let qfe := quant_up qs fault_exp in
-  (* one pass over the whole queue *)
-  LET '(mutated, repochs, rsecs, rpow, rfee) <-
-    fold_left (fun (acc : res (list (Z * expset) * list Z * gset N * pp * Z)) k =>
-      LET '(mutated, repochs, rsecs, rpow, rfee) <- acc IN
-      match q !! k with
-      | None => Ok (mutated, repochs, rsecs, rpow, rfee)
-      | Some es =>
-        if k <=? qfe then
-          let es' := {| on_time := on_time es; early := early es;
-                        on_time_pledge := on_time_pledge es; active_power := pp0;
-                        faulty_power := pp_add (faulty_power es) (active_power es);
-                        fee_deduction := fee_deduction es |} in
-          Ok (mutated ++ [(k, es')], repochs, rsecs, rpow, rfee)
-        else
-          if negb (set_empty (early es)) then Err E_STATE else
-          Ok (mutated, repochs ++ [k], rsecs ∪ on_time es,
-              pp_add (pp_add rpow (active_power es)) (faulty_power es), rfee + fee_deduction es)
-      end) (qkeys q) (Ok ([], [], ∅, pp0, 0)) IN
-  LET q1 <- fold_left (fun (acc : res queue) '(k, es') =>
-              LET q <- acc IN
-              if es_validate es' then Ok (<[k := es']> q) else Err E_STATE)
-            mutated (Ok q) IN
+  LET '(q1, repochs, rsecs, rpow, rfee) <-
+    foldM (fault_all_step qfe q) (qkeys q) (q, [], ∅, pp0, 0) IN
   match repochs with
   | [] => Ok q1
   | _ =>
@@ -285,36 +313,38 @@ Definition reschedule_all_as_faults (qs : quant) (q : queue) (fault_exp : Z) : r
     Ok (fold_left (fun q k => delete k q) repochs q2)
   end.
 
-(* iter_while_mut + the closure of reschedule_recovered *)
+(* iter_while_mut + the closure of reschedule_recovered.  An entry left empty is deleted at
+   once (the code deletes the emptied entries after the traversal: same queue). *)
+Definition recover_step (m0 : gmap N sector)
+    (acc : queue * gset N * list sector * pp) (k : Z)
+  : res (queue * gset N * list sector * pp * bool) :=
+  let '(q, rem, resched, recovered) := acc in
+  match q !! k with
+  | None => Ok (acc, true)
+  | Some es =>
+    let hit_ot := on_time es ∩ rem in
+    let l_ot := lookup_all m0 (sorted hit_ot) in
+    let rem1 := rem ∖ hit_ot in
+    let hit_ea := early es ∩ rem1 in
+    let l_ea := lookup_all m0 (sorted hit_ea) in
+    let rem2 := rem1 ∖ hit_ea in
+    let es' := {| on_time := on_time es; early := early es ∖ hit_ea;
+                  on_time_pledge := on_time_pledge es;
+                  active_power := pp_add (active_power es) (sum_pow l_ot);
+                  faulty_power := pp_sub (pp_sub (faulty_power es) (sum_pow l_ot)) (sum_pow l_ea);
+                  fee_deduction := fee_deduction es - sum_fee l_ea |} in
+    if negb (es_validate es') then Err E_STATE else
+    Ok ((if es_is_empty es' then delete k q else <[k := es']> q), rem2, resched ++ l_ea,
+        pp_add (pp_add recovered (sum_pow l_ot)) (sum_pow l_ea),
+        negb (set_empty rem2))
+  end.
+
 Definition reschedule_recovered (qs : quant) (q : queue) (secs : list sector) : res (queue * pp) :=
   let m0 := by_number secs in
-  LET '(q1, remaining, resched, recovered, emptied, _) <-
-    fold_left (fun (acc : res (queue * gset N * list sector * pp * list Z * bool)) k =>
-      LET '(q, rem, resched, recovered, emptied, go) <- acc IN
-      if negb go then Ok (q, rem, resched, recovered, emptied, go) else
-      match q !! k with
-      | None => Ok (q, rem, resched, recovered, emptied, go)
-      | Some es =>
-        let hit_ot := on_time es ∩ rem in
-        let l_ot := lookup_all m0 (sorted hit_ot) in
-        let rem1 := rem ∖ hit_ot in
-        let hit_ea := early es ∩ rem1 in
-        let l_ea := lookup_all m0 (sorted hit_ea) in
-        let rem2 := rem1 ∖ hit_ea in
-        let es' := {| on_time := on_time es; early := early es ∖ hit_ea;
-                      on_time_pledge := on_time_pledge es;
-                      active_power := pp_add (active_power es) (sum_pow l_ot);
-                      faulty_power := pp_sub (pp_sub (faulty_power es) (sum_pow l_ot)) (sum_pow l_ea);
-                      fee_deduction := fee_deduction es - sum_fee l_ea |} in
-        if negb (es_validate es') then Err E_STATE else
-        Ok (<[k := es']> q, rem2, resched ++ l_ea,
-            pp_add (pp_add recovered (sum_pow l_ot)) (sum_pow l_ea),
-            (if es_is_empty es' then emptied ++ [k] else emptied),
-            negb (set_empty rem2))
-      end) (qkeys q) (Ok (q, nums_of secs, [], pp0, [], true)) IN
-  let q2 := fold_left (fun q k => delete k q) emptied q1 in
+  LET '(q1, remaining, resched, recovered) <-
+    iterM (recover_step m0) (qkeys q) (q, nums_of secs, [], pp0) IN
   if negb (set_empty remaining) then Err E_STATE else
-  LET '(q3, _, _, _, _) <- add_active_sectors qs q2 resched IN
+  LET '(q3, _, _, _, _) <- add_active_sectors qs q1 resched IN
   Ok (q3, recovered).
 
 Definition q_replace_sectors (qs : quant) (q : queue) (old new : list sector)
@@ -324,6 +354,52 @@ Definition q_replace_sectors (qs : quant) (q : queue) (old new : list sector)
   Ok (q2, old_ns, new_ns, pp_sub new_pw old_pw, new_pl - old_pl, new_fe - old_fe).
 
 (* remove_sectors: non-faulty ones where they are declared, then faulty ones by traversal *)
+Definition remove_faulty_one (ot0 ea0 recovering : gset N)
+    (acc : expset * expset * pp * gset N) (s : sector) : expset * expset * pp * gset N :=
+  let '(es, removed, rec_pow, rem) := acc in
+  let n := s_num s in
+  if bool_decide (n ∈ ot0) then
+    ({| on_time := on_time es ∖ {[n]}; early := early es;
+        on_time_pledge := on_time_pledge es - s_pledge s;
+        active_power := active_power es;
+        faulty_power := pp_sub (faulty_power es) (s_pow s);
+        fee_deduction := fee_deduction es - s_fee s |},
+     {| on_time := on_time removed ∪ {[n]}; early := early removed;
+        on_time_pledge := on_time_pledge removed + s_pledge s;
+        active_power := active_power removed;
+        faulty_power := pp_add (faulty_power removed) (s_pow s);
+        fee_deduction := fee_deduction removed + s_fee s |},
+     (if bool_decide (n ∈ recovering) then pp_add rec_pow (s_pow s) else rec_pow),
+     rem ∖ {[n]})
+  else if bool_decide (n ∈ ea0) then
+    ({| on_time := on_time es; early := early es ∖ {[n]};
+        on_time_pledge := on_time_pledge es;
+        active_power := active_power es;
+        faulty_power := pp_sub (faulty_power es) (s_pow s);
+        fee_deduction := fee_deduction es - s_fee s |},
+     {| on_time := on_time removed; early := early removed ∪ {[n]};
+        on_time_pledge := on_time_pledge removed;
+        active_power := active_power removed;
+        faulty_power := pp_add (faulty_power removed) (s_pow s);
+        fee_deduction := fee_deduction removed + s_fee s |},
+     (if bool_decide (n ∈ recovering) then pp_add rec_pow (s_pow s) else rec_pow),
+     rem ∖ {[n]})
+  else acc.
+
+Definition remove_faulty_step (faulty : list sector) (recovering : gset N)
+    (acc : queue * gset N * expset * pp) (k : Z) : res (queue * gset N * expset * pp * bool) :=
+  let '(q, rem, removed, rec_pow) := acc in
+  match q !! k with
+  | None => Ok (acc, true)
+  | Some es =>
+    let '(es', removed', rec', rem') :=
+      fold_left (remove_faulty_one (on_time es) (early es) recovering) faulty
+                (es, removed, rec_pow, rem) in
+    if negb (es_validate es') then Err E_STATE else
+    Ok ((if es_is_empty es' then delete k q else <[k := es']> q), rem', removed', rec',
+        negb (set_empty rem'))
+  end.
+
 Definition remove_sectors (qs : quant) (q : queue) (secs : list sector) (faults recovering : gset N)
   : res (queue * expset * pp) :=
   let non_faulty := filter (fun s => bool_decide (s_num s ∉ faults)) secs in
@@ -331,66 +407,24 @@ Definition remove_sectors (qs : quant) (q : queue) (secs : list sector) (faults 
   LET '(q1, rm_ns, rm_pw, rm_pl, rm_fe) <- remove_active_sectors qs q non_faulty IN
   let removed0 := {| on_time := rm_ns; early := ∅; on_time_pledge := rm_pl; active_power := rm_pw;
                      faulty_power := pp0; fee_deduction := rm_fe |} in
-  LET '(q2, remaining, removed, rec_pow, emptied, _) <-
-    fold_left (fun (acc : res (queue * gset N * expset * pp * list Z * bool)) k =>
-      LET '(q, rem, removed, rec_pow, emptied, go) <- acc IN
-      if negb go then Ok (q, rem, removed, rec_pow, emptied, go) else
-      match q !! k with
-      | None => Ok (q, rem, removed, rec_pow, emptied, go)
-      | Some es =>
-        let ot0 := on_time es in
-        let ea0 := early es in
-        let '(es', removed', rec', rem') :=
-          fold_left (fun '(es, removed, rec_pow, rem) s =>
-            let n := s_num s in
-            if bool_decide (n ∈ ot0) then
-              ({| on_time := on_time es ∖ {[n]}; early := early es;
-                  on_time_pledge := on_time_pledge es - s_pledge s;
-                  active_power := active_power es;
-                  faulty_power := pp_sub (faulty_power es) (s_pow s);
-                  fee_deduction := fee_deduction es - s_fee s |},
-               {| on_time := on_time removed ∪ {[n]}; early := early removed;
-                  on_time_pledge := on_time_pledge removed + s_pledge s;
-                  active_power := active_power removed;
-                  faulty_power := pp_add (faulty_power removed) (s_pow s);
-                  fee_deduction := fee_deduction removed + s_fee s |},
-               (if bool_decide (n ∈ recovering) then pp_add rec_pow (s_pow s) else rec_pow),
-               rem ∖ {[n]})
-            else if bool_decide (n ∈ ea0) then
-              ({| on_time := on_time es; early := early es ∖ {[n]};
-                  on_time_pledge := on_time_pledge es;
-                  active_power := active_power es;
-                  faulty_power := pp_sub (faulty_power es) (s_pow s);
-                  fee_deduction := fee_deduction es - s_fee s |},
-               {| on_time := on_time removed; early := early removed ∪ {[n]};
-                  on_time_pledge := on_time_pledge removed;
-                  active_power := active_power removed;
-                  faulty_power := pp_add (faulty_power removed) (s_pow s);
-                  fee_deduction := fee_deduction removed + s_fee s |},
-               (if bool_decide (n ∈ recovering) then pp_add rec_pow (s_pow s) else rec_pow),
-               rem ∖ {[n]})
-            else (es, removed, rec_pow, rem))
-          faulty (es, removed, rec_pow, rem) in
-        if negb (es_validate es') then Err E_STATE else
-        Ok (<[k := es']> q, rem', removed', rec',
-            (if es_is_empty es' then emptied ++ [k] else emptied), negb (set_empty rem'))
-      end) (qkeys q1) (Ok (q1, nums_of faulty, removed0, pp0, [], true)) IN
-  let q3 := fold_left (fun q k => delete k q) emptied q2 in
+  LET '(q2, remaining, removed, rec_pow) <-
+    iterM (remove_faulty_step faulty recovering) (qkeys q1) (q1, nums_of faulty, removed0, pp0) IN
   if negb (set_empty remaining) then Err E_STATE else
-  Ok (q3, removed, rec_pow).
+  Ok (q2, removed, rec_pow).
+
+Definition es_union (a b : expset) : expset :=
+  {| on_time := on_time a ∪ on_time b; early := early a ∪ early b;
+     on_time_pledge := on_time_pledge a + on_time_pledge b;
+     active_power := pp_add (active_power a) (active_power b);
+     faulty_power := pp_add (faulty_power a) (faulty_power b);
+     fee_deduction := fee_deduction a + fee_deduction b |}.
 
 Definition pop_until (q : queue) (until : Z) : queue * expset :=
-  fold_left (fun '(q', acc) k =>
-    if until <? k then (q', acc) else
+  fold_left (fun (acc : queue * expset) k =>
+    if until <? k then acc else
     match q !! k with
-    | None => (q', acc)
-    | Some es =>
-      (delete k q',
-       {| on_time := on_time acc ∪ on_time es; early := early acc ∪ early es;
-          on_time_pledge := on_time_pledge acc + on_time_pledge es;
-          active_power := pp_add (active_power acc) (active_power es);
-          faulty_power := pp_add (faulty_power acc) (faulty_power es);
-          fee_deduction := fee_deduction acc + fee_deduction es |})
+    | None => acc
+    | Some es => (delete k (fst acc), es_union (snd acc) es)
     end) (qkeys q) (q, es_empty).
 
 (* ---------- BitFieldQueue (unquantised use: the partition's early-termination queue) ---------- *)
